@@ -6,6 +6,7 @@
 #![allow(non_snake_case, clippy::all, unused_macros)]
 mod hs;
 mod scen_core;
+mod scen_fit;
 mod scen_native;
 mod scen_rel;
 mod scen_routing;
@@ -70,6 +71,7 @@ fn run_scenario<T: HS + scen_stats::NativeBand>(scenario: &str, cfg: &Cfg, out: 
         "stats" => scen_stats::run::<T>(cfg, out),
         "relw_stats" => scen_stats::relw_stats::<T>(cfg, out),
         "routing" => scen_routing::run::<T>(cfg, out),
+        "symfit" => scen_fit::run::<T>(cfg, out),
         _ => panic!("unknown scenario {scenario}"),
     }
 }
@@ -111,6 +113,7 @@ fn main() {
                     }
                 }
                 a.approx_sqrt = cfg.usize("approx_sqrt", 0) == 1;
+                a.round_shadows = cfg.usize("round_shadows", 0) == 1;
             });
             let mut out = Out::<Sym>::new();
             let res = std::panic::catch_unwind(std::panic::AssertUnwindSafe(|| run_scenario::<Sym>(scenario, &cfg, &mut out)));
@@ -154,6 +157,8 @@ fn main() {
             let res = std::panic::catch_unwind(std::panic::AssertUnwindSafe(|| match scenario {
                 "nonfinite" => scen_native::nonfinite(&cfg, &mut out),
                 "faultfit" => scen_native::faultfit(&cfg, &mut out),
+                "faultsweep" => scen_native::faultsweep(&cfg, &mut out),
+                "shapes" => scen_native::shapes(&cfg, &mut out),
                 "buildcase" => scen_native::buildcase(&cfg, &mut out),
                 "statsfit" => scen_native::statsfit(&cfg, &mut out),
                 "fitmap" => scen_native::fitmap(&cfg, &mut out),
